@@ -76,7 +76,7 @@ func (vc *VC) TranslateLemma(l *Lemma) (sc *Script, err error) {
 			ob := &Obligation{Name: "L/assert" + tag, Kind: "L", Goal: Implies(f.curReach, wantBoolE(t)).S, Pos: fmt.Sprintf("%s:%d", strings.TrimPrefix(st.Clause.File, vc.repo+"/"), st.Clause.Line), Desc: st.Clause.Text, Func: name}
 			sc.Items = append(sc.Items, Item{Ob: ob})
 			// a proved assertion may be used by later ones
-			f.assume(t)
+			f.assumeCut(t)
 		case "call":
 			key := st.Callee
 			if !strings.Contains(key, ":") {
